@@ -75,6 +75,9 @@ def spec_violated(rep):
             return "after `%s` waiter %s is still asleep although the vigil counter is 0 and no CeaseVigil is in flight (%s)" % (op, w[1], line)
         if "unwoken" in line:
             return "`%s`: a broadcast with a zero/positive counter did not wake a sleeping waiter (%s)" % (op, line)
+        if line.startswith("delpanic") and ("destroy=stuck" in line or ("vig=" in line and "vig=0" not in line)):
+            return ("a Delete RPC whose DeleteTreasure panicked (recovered by the handler) left the vigil counter of the swamp instance up: "
+                    "every later Destroy of it waits for ever (%s)" % line)
         if line.startswith("destroysave") and ("stuck" in line or "mu=held" in line):
             return ("Destroy() with a Save in flight never completes: the destroyer %s the swamp mutex when its drain begins, the writer it waits "
                     "for needs that mutex (%s)" % ("holds" if "mu=held" in line else "blocks on", line))
@@ -97,6 +100,8 @@ def run(ctx):
     corrs = []
     if K.build_hx(ctx) and K.build_drv(ctx):
         args = ["%s=%s" % (k, facts.get(k, "unknown")) for k in ("decrementUnderCondLock", "checkStrict", "closeCancels", "drainBeforeSwampMu", "autoDestroyRetakesVigil")]
+        hp = str(facts.get("handlers", "")).replace(",", " ").split()
+        args.append("handlersPaired=" + ("yes" if len(hp) >= 3 and hp[0] == hp[2] else "no"))
         c = K.correspondence(ctx, "C17", args)
         corrs.append(("C17", args, c))
         # genuinely concurrent run of the real vigil; its hook log must be a trace of the model
